@@ -235,6 +235,57 @@ def Searcher.run (pf : Bytes → Option Int) (s : Searcher) (tp : Provider) : Li
 def search (pf : Bytes → Option Int) (maxKey : Int) (token : Token) (tp : Provider) : Option (List Nat) :=
   (newSearcher pf maxKey token tp).map fun s => s.run pf tp
 
+/-! ## the active fraction's path -/
+
+/-- `TokenList.FindPattern` (frac/active_token_list.go): `entries` = the field's `(tid, value)` pairs in arrival
+order (`FieldTIDs[field]` resolved through `tidToVal`).  `activeTokenProvider` is unordered, its TIDs are the
+positions `1..n` (`GetToken(p) = tidToVal[inverseIndex[p-1]]`), and `inverseTIDs` maps the positions found back to
+the real TIDs.  `none` = panic. -/
+def activeFind (pf : Bytes → Option Int) (maxKey : Int) (token : Token) (entries : List (Nat × Bytes)) :
+    Option (List Nat) :=
+  (search pf maxKey token ⟨1, entries.map (·.2), false⟩).map fun ps =>
+    ps.map fun p => (entries.getD (p - 1) (0, [])).1
+
+/-! ## token.Provider (frac/token/provider.go): the ordered provider over selected table entries -/
+
+/-- `token.TableEntry` as far as `Provider` uses it (`StartIndex`/`BlockIndex` only locate the run inside a physical
+block and are abstracted: `blocks[i]` is the run of entry `i`) -/
+structure Entry where
+  startTID : Nat
+  valCount : Nat
+deriving Repr, DecidableEq
+
+/-- `getLastTID`: `StartTID + ValCount - 1` -/
+def Entry.lastTID (e : Entry) : Nat := e.startTID + e.valCount - 1
+
+/-- `checkTIDInBlock` -/
+def Entry.checkTIDInBlock (e : Entry) (tid : Nat) : Bool :=
+  if tid < e.startTID then false else if tid > e.lastTID then false else true
+
+/-- `Provider.findBlock`: fast path on the current block, else `sort.Search` on `getLastTID` -/
+def findBlock (es : List Entry) (cur : Option Nat) (tid : Nat) : Nat :=
+  let slow := SV.searchGo (fun i => decide (tid ≤ (es.getD i ⟨0, 0⟩).lastTID)) 0 es.length
+  match cur with
+  | some c => if (es.getD c ⟨0, 0⟩).checkTIDInBlock tid then c else slow
+  | none => slow
+
+/-- `Provider.GetToken`: returns the token and the new `curBlockIndex` -/
+def providerGetToken (es : List Entry) (blocks : List (List Bytes)) (cur : Option Nat) (tid : Nat) : Bytes × Option Nat :=
+  let bi := findBlock es cur tid
+  ((blocks.getD bi []).getD (tid - (es.getD bi ⟨0, 0⟩).startTID) [], some bi)
+
+/-- the entries the sealing code writes for consecutive runs starting at TID `base` -/
+def mkEntries (base : Nat) : List (List Bytes) → List Entry
+  | [] => []
+  | b :: bs => ⟨base, b.length⟩ :: mkEntries (base + b.length) bs
+
+/-- a sequence of `GetToken` calls on one provider (it keeps `curBlockIndex` between calls) -/
+def providerGetTokens (es : List Entry) (blocks : List (List Bytes)) : Option Nat → List Nat → List Bytes
+  | _, [] => []
+  | cur, tid :: rest =>
+    let r := providerGetToken es blocks cur tid
+    r.1 :: providerGetTokens es blocks r.2 rest
+
 /-! ## token.Table.SelectEntries and the sealed path -/
 
 /-- `SelectEntries` on one field's data: `minVal`, the entries' `MaxVal`s; result = `(l, r)` of `Entries[l:r]`
